@@ -688,6 +688,17 @@ func (c *LocalChecker) checkDirectUsersetTuples(ctx context.Context, req *Resolv
 
 		// if the type#relation is resolvable recursively, then it can only be resolved recursively
 		if typesys.UsersetUseRecursiveResolver(objectType, relation, userType) {
+			// UsersetUseRecursiveResolver guarantees that no other directly related userset has a path
+			// to the user type. Their tuples must not be read here: the recursive resolver follows
+			// usersets by object only, so "group:2#owner" would be taken for "group:2#member".
+			recursiveUsersetTypes := make([]*openfgav1.RelationReference, 0, 1)
+			for _, ref := range directlyRelatedUsersetTypes {
+				if ref.GetType() == objectType && ref.GetRelation() == relation {
+					recursiveUsersetTypes = append(recursiveUsersetTypes, ref)
+				}
+			}
+			directlyRelatedUsersetTypes := recursiveUsersetTypes
+
 			iter, err := checkutil.IteratorReadUsersetTuples(ctx, req, directlyRelatedUsersetTypes)
 			if err != nil {
 				return nil, err
